@@ -454,4 +454,26 @@ def RA_adjacency_container(ctx):
     R3_dense_index(ctx)
 
 
-RULES = [R1_adjacency, R2_ids_are_rows, R3_counts_and_readers, R4_vertex, RA_adjacency_container]
+def R6_csv_reader_keeps_every_row(ctx):
+    """C15.R6 the CSV reader behind every id-indexed table (vertices, edges, headings, restrictions) yields one record per data row:
+    the csv::ReaderBuilder is configured only with options that cannot remove a row, and nothing between the reader and the caller
+    filters, skips or de-duplicates records"""
+    F = ctx.F
+    ctx.rule("C15.R6", "read_utils::iterator_from_csv: ReaderBuilder::new() configured with has_headers / trim only (no `comment`, `flexible`, `terminator`, `quote`, `escape`, `delimiter` re-definition), read with into_deserialize, and handed on through row-preserving adaptors (inspect for the callback) — a `comment(Some(b'#'))` silently drops every row whose first byte is '#', and every later row is then stored under the id before its own", floor=2)
+    b = F.need("routee_compass_core::util::fs::read_utils::iterator_from_csv")
+    rt = nosite(deep_strip(Terms(b).return_term()))
+    alts = list(rt[1]) if rt[0] == "phi" else [rt]
+    oks = [a for a in alts if a[0] == "agg" and a[2] == "Ok"]
+    if not ctx.check(len(oks) == 1, "csv:one-reader", "expected one Ok(reader) value", b.where()):
+        return
+    chain = [x[1].split("{")[0] for x in calls_in(dict(oks[0][3])["0"])]
+    builder = [n for n in chain if re.search(r"csv::(reader::)?ReaderBuilder::\w+$", n)]
+    allowed = {"new", "has_headers", "trim", "from_reader", "from_path", "buffer_capacity"}
+    extra = sorted({n.split("::")[-1] for n in builder} - allowed)
+    ctx.check(bool(builder) and not extra, "csv:builder-options", "the csv ReaderBuilder is configured with %s: an option that can drop or merge data rows" % extra, b.where(), detail="ReaderBuilder: " + ", ".join(n.split("::")[-1] for n in reversed(builder)))
+    adapt = [n for n in chain if re.search(r"Iterator>?::\w+$|Itertools::\w+$", n)]
+    bad = [n.split("::")[-1] for n in adapt if not re.search(r"::(inspect|map|by_ref|fuse|into_iter|enumerate)$", n)]
+    ctx.check(not bad and any(n.endswith("into_deserialize") or n.endswith("deserialize") for n in chain), "csv:row-preserving-adaptors", "between the csv reader and the caller: %s" % bad, b.where(), detail="into_deserialize + " + ", ".join(n.split("::")[-1] for n in adapt))
+
+
+RULES = [R1_adjacency, R2_ids_are_rows, R3_counts_and_readers, R4_vertex, RA_adjacency_container, R6_csv_reader_keeps_every_row]
